@@ -4,6 +4,7 @@ mod sched;
 mod case;
 mod ring;
 mod uni;
+mod unilife;
 mod pool;
 mod stack;
 mod zcq;
@@ -52,6 +53,7 @@ fn main() {
             "ring" => ring::run(&case),
             "fsring" => ring::run_fs(&case),
             "uni"  => uni::run(&case),
+            "unilife" => unilife::run(&case),
             "pool" => pool::run(&case),
             "stack" => stack::run(&case),
             "zcq" => zcq::run(&case),
